@@ -261,41 +261,40 @@ impl Track {
         let mut voices: Vec<isize> = vec![];
         for _ in 0..16 * 128 { cc_values.push(-1); }
         for _ in 0..16 { voices.push(-1); }
-        self.events_sort(); // the values in force at the point are the latest in time, not the last written
+        // the events before the point, in time order (a stable sort: issue order within a tick): the values in force at the point
+        // are the latest in time, not the last written
+        let mut before: Vec<Event> = vec![];
         for e in self.events.iter() {
+            if e.time < timepos { before.push(e.clone()); }
+        }
+        before.sort_by(|a, b| a.time.cmp(&b.time));
+        for e in before.iter() {
             match e.etype {
                 EventType::Meta | EventType::SysEx => {
                     let mut e2 = e.clone();
-                    e2.time -= timepos;
-                    if e2.time < 0 { e2.time = 0; }
-                    events.push(e2);
-                },
-                EventType::NoteOn => {
-                    let mut e2 = e.clone();
-                    e2.time -= timepos;
-                    if e2.time < 0 { continue; }
+                    e2.time = 0;
                     events.push(e2);
                 },
                 EventType::Voice => {
-                    let mut e2 = e.clone();
-                    e2.time -= timepos;
-                    if e2.time < 0 {
-                        if 0 <= e2.channel && e2.channel < 16 {
-                            voices[e2.channel as usize] = e2.v1;
-                        }
-                        continue;
+                    if 0 <= e.channel && e.channel < 16 {
+                        voices[e.channel as usize] = e.v1;
                     }
-                    events.push(e2);
                 },
                 EventType::ControllChange => {
+                    if 0 <= e.v1 && e.v1 < 128 && 0 <= e.channel && e.channel < 16 {
+                        cc_values[(e.channel * 128 + e.v1) as usize] = e.v2;
+                    }
+                },
+                _ => {},
+            }
+        }
+        // the events at or after the point keep the order they were issued in
+        for e in self.events.iter() {
+            if e.time < timepos { continue; }
+            match e.etype {
+                EventType::Meta | EventType::SysEx | EventType::NoteOn | EventType::Voice | EventType::ControllChange => {
                     let mut e2 = e.clone();
                     e2.time -= timepos;
-                    if e2.time < 0 {
-                        if 0 <= e2.v1 && e2.v1 < 128 && 0 <= e2.channel && e2.channel < 16 {
-                            cc_values[(e2.channel * 128 + e2.v1) as usize] = e2.v2;
-                        }
-                        continue;
-                    }
                     events.push(e2);
                 },
                 EventType::NoteOff => {},
